@@ -15,7 +15,7 @@ V5 refusal restores: the refusing path undoes every write since entry
 import ast
 
 from ..index import AnalysisError, walk_no_nested
-from ..norm import Affine, Canon, Lit, Logic, affine, effects_of_event, minmax_term, effects_along, path_effects
+from ..norm import Affine, Canon, Lit, Logic, ProvCanon, affine, effects_of_event, minmax_term, effects_along, path_effects
 from ..paths import Frame, bind_args, cached_paths, function_paths
 from .common import call_name, short, stmt_contains
 
@@ -67,6 +67,7 @@ def table(repo, canon, callee, call, caller_frame, residual_param='residual_data
         r = Row()
         r.path = p
         env = {}
+        flags = {}
         if D0 is not None:
             env[residual_param] = D0
         feasible = True
@@ -75,12 +76,19 @@ def table(repo, canon, callee, call, caller_frame, residual_param='residual_data
                 t, pol = e.node, e.pol
                 while isinstance(t, ast.UnaryOp) and isinstance(t.op, ast.Not):
                     t, pol = t.operand, not pol
+                cmp = None
                 if isinstance(t, ast.Compare) and len(t.ops) == 1:
-                    l = affine(canon, t.left, sub, env)
-                    rr = affine(canon, t.comparators[0], sub, env)
-                    op = type(t.ops[0])
+                    cmp = (affine(canon, t.left, sub, env), affine(canon, t.comparators[0], sub, env),
+                           type(t.ops[0]))
+                elif isinstance(t, ast.Name) and t.id in flags:
+                    # a local holding the outcome of a comparison made earlier on this path
+                    cmp = flags[t.id][:3]
+                    if flags[t.id][3]:
+                        pol = not pol
+                if cmp is not None:
+                    l, rr, op = cmp
                     d = l - rr
-                    if isinstance(t.ops[0], (ast.Is, ast.IsNot)):
+                    if op in (ast.Is, ast.IsNot):
                         continue
                     if d.is_const() and op in (ast.Eq, ast.NotEq):
                         val = (d.const == 0) == (op is ast.Eq)
@@ -135,6 +143,13 @@ def table(repo, canon, callee, call, caller_frame, residual_param='residual_data
                 elif isinstance(n, ast.Assign) and len(n.targets) == 1:
                     t0 = n.targets[0]
                     if isinstance(t0, ast.Name):
+                        flags.pop(t0.id, None)
+                        fv, neg = n.value, False
+                        while isinstance(fv, ast.UnaryOp) and isinstance(fv.op, ast.Not):
+                            fv, neg = fv.operand, not neg
+                        if isinstance(fv, ast.Compare) and len(fv.ops) == 1:
+                            flags[t0.id] = (affine(canon, fv.left, sub, env),
+                                            affine(canon, fv.comparators[0], sub, env), type(fv.ops[0]), neg)
                         env[t0.id] = affine(canon, n.value, sub, env)
                     else:
                         tc = canon.c(t0, sub)
@@ -166,9 +181,9 @@ def table(repo, canon, callee, call, caller_frame, residual_param='residual_data
                 if a is None:
                     continue
                 for k in a.terms:
-                    if k in TERM_INFO and TERM_INFO[k][0] == 'min' and len(TERM_INFO[k][1]) == 2 and \
+                    if k in TERM_INFO and TERM_INFO[k][0] == 'min' and len(TERM_INFO[k][1]) >= 2 and \
                             D0 in TERM_INFO[k][1]:
-                        split = (k, [x for x in TERM_INFO[k][1] if x != D0][0])
+                        split = (k, minmax_term('min', [x for x in TERM_INFO[k][1] if x != D0]))
         if split is not None:
             k, rate = split
             for small in (True, False):
@@ -355,7 +370,10 @@ def check(repo, res, tier):
                 effs = [ef for p in cached_paths(g) for ef in path_effects(canon, p.events)]
                 pops = [ef for ef in effs if ef.loc == stored and ef.kind == 'pop']
                 sets = [ef for ef in effs if ef.loc == slot and ef.kind == 'assign']
-                okp = len(pops) == 1 and len(sets) == 1 and sets[0].arg.startswith(stored)
+                pcn = ProvCanon(repo)
+                okp = len(pops) == 1 and len(sets) == 1 and (
+                    sets[0].arg.startswith(stored) or (
+                        sets[0].value is not None and pcn.p(sets[0].value, sets[0].ev.frame).startswith(stored + '.pop(')))
                 res.analysed(g, 1)
         (res.ok if okp else res.bad)('C18.V4', f, oft[0] if oft else f.node,
                                      '%s: source pops the observation from stored into its transfer slot' % f.name,
